@@ -240,3 +240,65 @@ def parallel_block(prog, n):
     if not any(o.kind == "return" for o in outs):
         res["inconclusive"].append("vacuous: no returning path")
     return finish(res, I, S, t0)
+
+
+def parallel_block_concrete(prog, n):
+    """Complement of parallel_block for merge logic that looks INSIDE the partial results (first date, length, ...): concrete ranges of
+    -2..3n+2 days and thresholds 0..2 with n workers; each worker returns the real per-day map of its block (values are tokens), every
+    arrival order of the messages is a path; the result must be exactly {date -> token(date)} for the dates of the range, the call
+    must terminate and not panic."""
+    t0 = time.time()
+    res = new_res("prayer_times_dt_rng_block, %d workers, concrete ranges of -2..%d days x thresholds 0..2: exactly the range's dates under every arrival order"
+                  % (n, 3 * n + 2), ["prayer_times_dt_rng_block", "prayer_times_dt_rng_block::{closure#0}", "prayer_times_dt_rng_block::{closure#0}::{closure#0}",
+                                     "prayer_times_dt_rng_block::{closure#0}::{closure#1}", "DateRange::partition"])
+    S = smt.Smt()
+    s0 = 738000
+    npaths = 0
+    for days in range(-2, 3 * n + 3):
+        for mind in (0, 1, 2):
+            I = interp.Interp(prog, mode="sym", smt=S, max_unroll=4 * n + 12, max_paths=200000)
+            I.avail_pll = n
+            st = interp.State()
+            dr = Struct("DateRange", (Struct("RangeInclusive", (Date(s0), Date(s0 + days - 1), False)),))
+            drc = st.alloc(dr)
+            pc_ = st.alloc(Opaque("params"))
+
+            def stub_rng(I2, st2, args, callee):
+                rng = I2.read(st2, args[2].cell, args[2].path).fields[0]
+                a, b = rng.fields[0].rd, rng.fields[1].rd
+                if is_sym(a) or is_sym(b):
+                    raise interp.Unsupported("symbolic block in the concrete-range run")
+                return [(None, ("ret", MapV("btree", [(("D", (), rd), Opaque(("t", rd))) for rd in range(int(a), int(b) + 1)])))]
+            I.stubs["prayer_times_dt_rng"] = stub_rng
+            inp = {"start_rd": s0, "end_rd": s0 + days - 1, "min_days_for_pll": mind, "workers": n}
+            try:
+                outs = I.run_body(prog.find_body("prayer_times_dt_rng_block"), [Ref(pc_, ()), Opaque("location"), Ref(drc, ()), mind], st=st)
+            except interp.Unsupported as ex:
+                res["inconclusive"].append("unsupported: %s" % str(ex)[:200])
+                continue
+            want = [("D", (), rd) for rd in range(s0, s0 + days)]
+            for o in outs:
+                npaths += 1
+                if o.kind in ("unsupported", "unwind"):
+                    res["inconclusive"].append("%s: %s" % (o.kind, str(o.info)[:200]))
+                elif o.kind == "panic":
+                    dead = "DEADLOCK" in str(o.info)
+                    res["cands"].append({"what": ("never terminates: " if dead else "panic: ") + str(o.info)[:160], "inputs": inp, "parallel": True, "deadlock": dead})
+                elif not isinstance(o.value, MapV):
+                    res["cands"].append({"what": "result is not a map", "inputs": inp, "parallel": True})
+                else:
+                    got = sorted(k for k, _ in o.value.items)
+                    if got != want:
+                        res["cands"].append({"what": "parallel result has %d dates, the range has %d (lost: %d, extra: %d) under one arrival order"
+                                                     % (len(got), len(want), len(set(want) - set(got)), len(set(got) - set(want))), "inputs": inp, "parallel": True})
+                    elif any(not (isinstance(v, Opaque) and v.what == ("t", k[2])) for k, v in o.value.items):
+                        res["cands"].append({"what": "a date carries another date's times", "inputs": inp, "parallel": True})
+            if len(res["cands"]) > 12:
+                break
+        if len(res["cands"]) > 12:
+            break
+    res["paths"] = npaths
+    res["cands"] = res["cands"][:6]
+    res["witness"] = 1 if npaths else 0
+    I = interp.Interp(prog, mode="sym", smt=S)
+    return finish(res, I, S, t0)
